@@ -98,6 +98,8 @@ DEFAULT_PROFILE: Dict[str, Any] = {
     "max_stalls": 2,
     "stations": (1, 3),
     "bases": (1, 3),
+    # a third of the worlds write the optional allows_pooling column into the request file (any non-empty text counts as true)
+    "pooling_col": True,
 }
 
 
@@ -131,6 +133,8 @@ def st_world(draw, prof: Optional[Dict[str, Any]] = None) -> Dict[str, Any]:
     nf = draw(st.sampled_from(p["fleets"]))
     fleet_ids = [f"f{c}" for c in "abc"[:nf]]
     subset = st.lists(st.sampled_from(fleet_ids), unique=True, max_size=nf) if nf else st.just([])
+
+    pool_world = bool(p.get("pooling_col")) and draw(st.sampled_from([False, False, True]))
 
     # stations
     stations = []
@@ -201,6 +205,9 @@ def st_world(draw, prof: Optional[Dict[str, Any]] = None) -> Dict[str, Any]:
                 "fleet": draw(st.sampled_from(fleet_ids)) if nf else None,
             }
         )
+        # the optional allows_pooling column (profile flag): any non-empty text counts as true for the loader
+        if pool_world:
+            requests[-1]["pool"] = draw(st.sampled_from(["", "", "true", "false"]))
         # a few rows with the *wrong* fleet status (a fleet id in a scenario without fleets file, none in one with fleets): the loader is documented to drop them, so they must never be admitted, let alone dispatched
         if draw(st.integers(0, 11)) == 0:
             requests[-1]["fleet"] = None if nf else draw(st.sampled_from(["fa", "fz"]))
@@ -316,11 +323,12 @@ def write_world(w: Dict[str, Any], d: Path, end_steps: int = 2000) -> Path:
     (d / "bases.csv").write_text("\n".join(rows) + "\n")
     has_fleets = bool(w.get("fleet_ids"))
     fleet_col = has_fleets or any(r.get("fleet") for r in w["requests"])
-    rows = ["request_id,o_lat,o_lon,d_lat,d_lon,departure_time,passengers" + (",fleet_id" if fleet_col else "")]
+    pool_col = any("pool" in r for r in w["requests"])
+    rows = ["request_id,o_lat,o_lon,d_lat,d_lon,departure_time,passengers" + (",fleet_id" if fleet_col else "") + (",allows_pooling" if pool_col else "")]
     for r in w["requests"]:
         o, dd = _site(w, r["o"]), _site(w, r["d"])
         tm = r.get("t_text", r["t"])
-        rows.append(f"{r['id']},{o[0]},{o[1]},{dd[0]},{dd[1]},{tm},{r['pax']}" + (f",{r['fleet'] or ''}" if fleet_col else ""))
+        rows.append(f"{r['id']},{o[0]},{o[1]},{dd[0]},{dd[1]},{tm},{r['pax']}" + (f",{r['fleet'] or ''}" if fleet_col else "") + (f",{r.get('pool', '')}" if pool_col else ""))
     (d / "requests.csv").write_text("\n".join(rows) + "\n")
     (d / "mechatronics.yaml").write_text(yaml.safe_dump(w.get("mechatronics") or MECHATRONICS_YAML))
     sim = {"sim_name": "w", "start_time": 0, "timestep_duration_seconds": 60}
@@ -441,7 +449,8 @@ def recording(inner):
             self.emitted = tuple(instructions)
             return self, instructions
 
-    return Recording(inner)
+    # HIVE's update_instruction_generator looks a generator up by its *class* name: give the proxy the inner class' name
+    return type(type(inner).__name__, (Recording,), {})(inner)
 
 
 class World:
